@@ -252,6 +252,8 @@ def handleLine (st : State) (line : String) : State × String :=
           (st, verdict (!modelPanics && m == impl) (hexField m) [] [])
         | none => (st, "bad-time")
     | _, _ => (st, "bad-time")
+  | ["timeonly", _pid, _inp, impl, _us] =>
+    (st, verdict true "-" (if impl == "PANIC" then ["C14"] else []) [])
   | ["url", inp, res, hostf] =>
     match unhexField inp with
     | some b =>
